@@ -141,6 +141,35 @@ def falsy(prog, resolver_of):
     return out
 
 
+def _method_writes_self(cls, mname, seen=None) -> bool:
+    """does cls.mname (or a method of the same object it calls) store to an attribute of self / change one in place?"""
+    seen = seen if seen is not None else set()
+    if mname in seen or mname not in cls.methods:
+        return False
+    seen.add(mname)
+    m = cls.methods[mname]
+    sn = m.self_name
+    if sn is None:
+        return False
+    for n in own_nodes(m.node):
+        if isinstance(n, ast.Attribute) and isinstance(n.ctx, (ast.Store, ast.Del)) and isinstance(n.value, ast.Name) \
+                and n.value.id == sn:
+            return True
+        if isinstance(n, ast.Call) and isinstance(n.func, ast.Attribute):
+            b = n.func.value
+            if isinstance(b, ast.Attribute) and isinstance(b.value, ast.Name) and b.value.id == sn \
+                    and n.func.attr in (ADDERS | REMOVERS | REORDER | {'setdefault', 'update', 'clear'}):
+                return True
+            if isinstance(b, ast.Name) and b.id == sn and _method_writes_self(cls, n.func.attr, seen):
+                return True
+        if isinstance(n, (ast.Assign, ast.Delete)):
+            for t in n.targets:
+                if isinstance(t, ast.Subscript) and isinstance(t.value, ast.Attribute) and isinstance(t.value.value, ast.Name) \
+                        and t.value.value.id == sn:
+                    return True
+    return False
+
+
 def mutdefault(prog):
     out = []
     for f in prog.all_funcs():
@@ -148,6 +177,22 @@ def mutdefault(prog):
                 if isinstance(d, (ast.List, ast.Dict, ast.Set)) or (
                     isinstance(d, ast.Call) and isinstance(d.func, ast.Name) and d.func.id in ('list', 'dict', 'set')
                     and not d.args)}
+        # a default that is an INSTANCE of one of the package's classes (`compiler=MalCompiler()`): evaluated once, shared
+        # by every call; a method of it that writes its own attributes carries state from one call into the next
+        inst = {}
+        for p, d in f.param_default.items():
+            if isinstance(d, ast.Call) and isinstance(d.func, ast.Name) and d.func.id in prog.classes \
+                    and not prog.classes[d.func.id].module.generated:
+                inst[p] = prog.classes[d.func.id]
+        if inst:
+            cfg = cfg_of(f)
+            for n in own_nodes(f.node):
+                if isinstance(n, ast.Call) and isinstance(n.func, ast.Attribute) and isinstance(n.func.value, ast.Name) \
+                        and n.func.value.id in inst and _method_writes_self(inst[n.func.value.id], n.func.attr):
+                    node = cfg.owner(n) or cfg.node_of(n)
+                    defs = cfg.reaching(node, n.func.value.id) if node is not None else []
+                    if any(d.kind == 'entry' for d in defs):
+                        out.append((f, n, n.func.value.id))
         if not muts:
             continue
         cfg = cfg_of(f)
@@ -720,6 +765,38 @@ def misc_bugclasses(prog, cfg_of_):
                                     f"{n.value.id} the very same object ({base.id} is bound once, no copy in between): "
                                     f"the structure now contains itself (earlier content is overwritten, serialising it "
                                     f"never ends)"))
+    # STRIPSET: str.strip / lstrip / rstrip take a SET of characters, not a prefix / suffix: `s.rstrip('.attacker')`
+    # goes on removing any of . a t c k e r from the end ('write.attacker' -> 'wri')
+    for f in prog.all_funcs():
+        if f.module.generated:
+            continue
+        for n in own_nodes(f.node):
+            if isinstance(n, ast.Call) and isinstance(n.func, ast.Attribute) and n.func.attr in ('strip', 'lstrip', 'rstrip') \
+                    and len(n.args) == 1 and isinstance(n.args[0], ast.Constant) and isinstance(n.args[0].value, str):
+                a = n.args[0].value
+                if sum(ch.isalnum() for ch in a) >= 2 and len(a) >= 3:
+                    out.append((f, n, 'STRIPSET',
+                                f"'{stmt_text(n, 70)}' treats {a!r} as a {'prefix' if n.func.attr == 'lstrip' else 'suffix'}, "
+                                f"but {n.func.attr} removes every leading / trailing character that occurs in the "
+                                f"set {sorted(set(a))}: names that end (start) with such letters are truncated "
+                                f"(use removesuffix / removeprefix or split)"))
+    # ASCIISTREAM: antlr4.FileStream(fileName, encoding='ascii', errors='strict') - a language source is UTF-8 text
+    # (info strings with typographic quotes, umlauts); without the encoding argument any non-ASCII byte raises
+    for f in prog.all_funcs():
+        if f.module.generated:
+            continue
+        for n in own_nodes(f.node):
+            if isinstance(n, ast.Call) and ((isinstance(n.func, ast.Name) and n.func.id == 'FileStream')
+                                            or (isinstance(n.func, ast.Attribute) and n.func.attr == 'FileStream')):
+                enc = n.args[1] if len(n.args) > 1 else next((k.value for k in n.keywords if k.arg == 'encoding'), None)
+                if any(k.arg is None for k in n.keywords) or any(isinstance(a, ast.Starred) for a in n.args):
+                    continue
+                if enc is None or (isinstance(enc, ast.Constant) and isinstance(enc.value, str)
+                                   and enc.value.lower().replace('_', '-') in ('ascii', 'us-ascii')):
+                    out.append((f, n, 'ASCIISTREAM',
+                                f"'{stmt_text(n, 70)}' opens the source with antlr4.FileStream's default codec 'ascii' "
+                                f"(errors='strict'): a .mal file with a non-ASCII character in a string, define or "
+                                f"comment fails with UnicodeDecodeError instead of compiling"))
     return out
 
 
